@@ -582,7 +582,7 @@ fn well_formed(eh: bool, cies: &[ACie], fdes: &[AFde]) -> bool {
         if eh && c.ver != 1 || !eh && !matches!(c.ver, 1 | 3 | 4) {
             return false;
         }
-        if !eh && c.ver == 1 && c.ra > 255 {
+        if c.ver == 1 && c.ra > 255 {
             return false;
         }
         if let Some((e, a)) = &c.pers {
@@ -743,16 +743,12 @@ where
 }
 
 /// "entries are padded to the address size": size of the length field + length is a multiple of
-/// the address size (DWARF 5 §6.4.1; the length field of the 64-bit format has 12 bytes, §7.4).
-/// Class `aligned64` = the recorded finding C14-2 (64-bit format: the writer counts 8 bytes for the
-/// length field), class `aligned` = any other misalignment.
+/// the address size (DWARF 5 §6.4.1; the length field of the 64-bit format has 12 bytes, §7.4)
 fn check_aligned(what: &str, off: usize, lf: usize, len: u64, asz: u8) -> Result<(), String> {
-    let a = asz as u64;
-    if (lf as u64 + len) % a == 0 {
+    if (lf as u64 + len) % asz as u64 == 0 {
         return Ok(());
     }
-    let class = if lf == 12 && (8 + len) % a == 0 { "aligned64" } else { "aligned" };
-    Err(format!("{class} {what} at {off}: length field {lf} + length {len} is not a multiple of the address size {asz}"))
+    Err(format!("aligned {what} at {off}: length field {lf} + length {len} is not a multiple of the address size {asz}"))
 }
 
 fn read_back_on<'a, S, F>(mk: F, secbytes: &'a [u8], eh: bool, big: bool, cies: &[ACie], fdes: &[AFde], wr: &Written) -> Result<(), String>
@@ -765,17 +761,6 @@ where
     let entries = walk_entries(secbytes, big).map_err(|e| format!("layout {e}"))?;
     // expected sequence: a CIE the first time an FDE refers to its class, then the FDE
     let mut emitted: BTreeMap<usize, usize> = BTreeMap::new(); // dense id -> offset
-    // the recorded misalignment (class `aligned64`) does not end the check of the other clauses
-    let mut pending: Option<String> = None;
-    let mut aligned = |what: &str, off: usize, lf: usize, len: u64, asz: u8| -> Result<(), String> {
-        match check_aligned(what, off, lf, len, asz) {
-            Err(e) if e.starts_with("aligned64 ") => {
-                pending.get_or_insert(e);
-                Ok(())
-            }
-            r => r,
-        }
-    };
     let mut it = entries.iter();
     for f in fdes {
         let c = &cies[f.k];
@@ -784,24 +769,21 @@ where
         if !emitted.contains_key(&id) {
             let Some(&(off, lf, len)) = it.next() else { return Err("entries missing: CIE not emitted".into()) };
             check_cie(&sec, &bases, off, c, eh)?;
-            aligned("cie", off, lf, len, c.asz)?;
+            check_aligned("cie", off, lf, len, c.asz)?;
             emitted.insert(id, off);
         }
         let Some(&(off, lf, len)) = it.next() else { return Err("entries missing: FDE not emitted".into()) };
         check_fde(&sec, secbytes, &bases, off, emitted[&id], c, f)?;
-        aligned("fde", off, lf, len, c.asz)?;
+        check_aligned("fde", off, lf, len, c.asz)?;
     }
     if it.next().is_some() {
         return Err("entries extra: more entries than FDEs + distinct referenced CIEs".into());
     }
-    match pending {
-        Some(e) => Err(e),
-        None => Ok(()),
-    }
+    Ok(())
 }
 
 /// the read-back domain of `wcfi-rows` (the same test as `readable` in lean/Gimli/Drv/C14.lean)
-fn readable(eh: bool, cies: &[ACie], fdes: &[AFde]) -> bool {
+fn readable(cies: &[ACie], fdes: &[AFde]) -> bool {
     fdes.iter().all(|f| {
         let Some(c) = cies.get(f.k) else { return false };
         let fits = |a: &AAddr| matches!(a, Some(v) if c.asz >= 8 || *v < (1u64 << (8 * c.asz as u32)));
@@ -810,7 +792,6 @@ fn readable(eh: bool, cies: &[ACie], fdes: &[AFde]) -> bool {
             && f.lsda.as_ref().map_or(true, |a| fits(a))
             && f.lsda.is_some() == c.lsda.is_some()
             && c.pers.as_ref().map_or(true, |(_, a)| fits(a))
-            && !(eh && c.ra >= 128)
     })
 }
 
@@ -971,16 +952,7 @@ fn oracle(eh: bool, big: bool, cies: &[ACie], fdes: &[AFde], wr: &Written) -> Op
                     wr,
                 )
             };
-            // recorded finding C14-1: a version 1 `.eh_frame` CIE has a one-byte return address
-            // register field (that is what gimli's reader, the LSB text and the GCC/LLVM unwinders
-            // read); the writer emits a ULEB128, which differs from register 128 on.  Whatever
-            // symptom the read-back shows for such a table is reported under the class `eh-ra`.
-            let eh_ra = eh && fdes.iter().any(|f| cies[f.k].ra >= 128);
-            match r {
-                Ok(()) => None,
-                Err(e) if eh_ra => Some(format!("eh-ra {e}")),
-                Err(e) => Some(e),
-            }
+            r.err()
         }
     }
 }
@@ -1060,7 +1032,7 @@ pub fn handle(op: &str, a: &[&str]) -> Option<String> {
             let wr = write_table(eh, big, &cs, &fs)?;
             Some(match &wr.res {
                 Err(e) => format!("err {e}"),
-                Ok(_) if !readable(eh, &cs, &fs) => "ok skip".to_string(),
+                Ok(_) if !readable(&cs, &fs) => "ok skip".to_string(),
                 Ok(bytes) => format!("ok {}", fde_rows_text(eh, big, &cs, &fs, &wr, bytes)),
             })
         }
